@@ -39,6 +39,18 @@ in C and F order, strided / transposed views (the whole base buffer is compared)
 reference element, lists.  Only args_intact is evaluated there; values are not compared (solver resolution ~10 %), calls that
 raise are counted (tiny_call_raised) and their arguments still compared.
 
+Interleaved histories (case flag 'interleave'): two or three precipitate phases on one object (Al-Mg-Si MGSI_B_P / MG5SI6_B_DP
+/ B_PRIME_L; Ni-Al-Cr; Fe-Cr-Ni) are queried in blocks A@T1, B@T2, A@T2 / A@T1, B@T1, A@T2, B@T2 / A, B, C, A ... (driving force or
+curvature factor, all four driving-force methods, removeCache mostly False, occasional clearCache(), the block's first query
+repeated after the temperature changed) and judged by the same warm_vs_fresh / repeat_vs_first monitors.
+
+Case kind 'tfield': SinglePhaseModel with a deterministic logging backend D(x, T) under a temperature field T(z, t) (gradient
+40..300 K across the mesh, optional drift in time) and step / bounded / single-node profiles (runs of bit-identical nodes).
+Cache off: backend_calls demands that the N calls of one flux evaluation carry exactly (x_i, T_i) of node i.  Cache on or
+off: cache_sound demands that every interior flux equals -(D_a + D_b)/2 . grad x for admissible node diffusivities (the node's
+own D(x_i, T_i), or a stored value whose arguments agree within 10^-s), and, when all nodes have one admissible value, that the
+stability time step equals the per-node reference (1e-9 relative).
+
 Domain ("stable range"), decided at run time, rejects are counted and skipped:
   * phase_not_stable: the phase the query refers to (matrix; diffusion phase) must be present with exactly one
     composition set in the global equilibrium of all listed phases at (x, T) (helper object, never compared);
@@ -87,7 +99,8 @@ RULE = ('random query histories (20-60 public calls: driving force, interfacial 
         'long-lived object per system {Al-Zr, Ni-Al-Cr, Fe-Cr-Ni} x driving-force method, each query re-run on a cleared and/or brand-new '
         'object; plus operation histories on the diffusion composition cache (digits 1..8, on/off, near-boundary pairs) directly, through '
         'SinglePhaseModel with a counting stub and through computeMobility; plus argument-immutability sweeps with zero / sub-resolution '
-        'composition entries in every argument form (non-trivial when >= 20 such calls completed). A history case is non-trivial when it contains >=1 temperature '
+        'composition entries in every argument form (non-trivial when >= 20 such calls completed); interleaved two/three-phase histories (A@T1, B@T2, A@T2 ...); diffusion models under a '
+        'temperature field with runs of bit-identical nodes (non-trivial with >= 1 identical neighbour pair and >= 1 cache-off phase). A history case is non-trivial when it contains >=1 temperature '
         'jump >= 20 K, >=1 repeated point and >=10 compared queries; a cache case when >=1 cache hit and >=1 off-phase were observed; '
         'distinct by case description (system, method, length, case index, seed)')
 REQUIRED_MONITORS = ['warm_vs_fresh', 'cleared_vs_new', 'batch_vs_single', 'repeat_vs_first', 'args_intact', 'no_alias',
@@ -151,6 +164,12 @@ SYSTEMS = {
                'pprec': [0.4, 0.3, 0.3], 'dphase': [None, 'FCC_A1', 'BCC_A2'], 'g': (0.0, 3000.0),
                'sdir': {'BCC_A2': [0.50, 0.03], 'SIGMA': [0.50, 0.05]}},
 }
+# Al-Mg-Si with two / three precipitate phases: only used by the interleaved multi-phase histories
+SYSTEMS['almgsi2'] = {'binary': False, 'tdb': 'ALMGSI_DB', 'elements': ['AL', 'MG', 'SI'], 'phases': ['FCC_A1', 'MGSI_B_P', 'MG5SI6_B_DP'],
+                      'xlo': [0.003, 0.003], 'xhi': [0.012, 0.012], 'T': (420.0, 570.0), 'prec': [None, 'MGSI_B_P', 'MG5SI6_B_DP'],
+                      'pprec': [0.2, 0.4, 0.4], 'dphase': [None], 'g': (0.0, 3000.0), 'sdir': {}}
+SYSTEMS['almgsi3'] = dict(SYSTEMS['almgsi2'], phases=['FCC_A1', 'MGSI_B_P', 'MG5SI6_B_DP', 'B_PRIME_L'],
+                          prec=[None, 'MGSI_B_P', 'MG5SI6_B_DP', 'B_PRIME_L'], pprec=[0.1, 0.3, 0.3, 0.3])
 KINDS = {True: (['df', 'ic', 'interdiff', 'tracer'], [0.3, 0.3, 0.2, 0.2]),
          False: (['df', 'ic', 'curv', 'growth', 'imp', 'interdiff', 'tracer'], [0.2, 0.1, 0.2, 0.2, 0.05, 0.15, 0.1])}
 CURV_KINDS = ('curv', 'growth', 'imp')
@@ -192,6 +211,22 @@ def plan(tier, seed):
             for meth in meths:
                 cases.append({'kind': 'tinyargs', 'system': s, 'df': meth, 'ic': 'equilibrium', 'h': h,
                               'weight': {'alzr': 3.0, 'nialcr': 40.0, 'fecrni': 30.0}[s]})
+    # interleaved multi-phase histories (A@T1, B@T2, A@T2, ...) on one object, all driving-force methods
+    allm = ['tangent', 'sampling', 'approximate', 'curvature']
+    if tier == 'quick':
+        combos = [('almgsi2', m) for m in allm] + [('almgsi3', m) for m in allm] + [('nialcr', 'sampling'), ('fecrni', 'sampling'),
+                                                                                     ('fecrni', 'tangent')]
+        reps = 1
+    else:
+        combos = [(sy, m) for sy in ('almgsi2', 'almgsi3', 'nialcr', 'fecrni') for m in allm]
+        reps = 3
+    for h in range(reps):
+        for sy, m in combos:
+            cases.append({'kind': 'history', 'interleave': True, 'system': sy, 'df': m, 'ic': 'equilibrium', 'n': 0, 'h': h,
+                          'weight': {'almgsi2': 2.0, 'almgsi3': 2.0, 'nialcr': 30.0, 'fecrni': 15.0}[sy]})
+    # diffusion model under a temperature field with runs of bit-identical nodes
+    for h in range(12 if tier == 'quick' else 60):
+        cases.append({'kind': 'tfield', 'h': h, 'weight': 1.0})
     return cases
 
 
@@ -242,6 +277,8 @@ def _move_x(rng, S, x):
 
 def gen_history(rng, case):
     """List of JSON-able query descriptions."""
+    if case.get('interleave'):
+        return gen_interleaved(rng, case)
     S = SYSTEMS[case['system']]
     binary = S['binary']
     kinds, pk = KINDS[binary]
@@ -324,6 +361,63 @@ def gen_history(rng, case):
                 q['g'] = [float(2 * 0.03 * 7e-6 / r) for r in q['R']]
                 q['gf'] = 'arr' if batch else str(rng.choice(['float', 'arr']))
         Q.append(q)
+    return Q
+
+
+def gen_interleaved(rng, case):
+    """Histories that interleave two or three precipitate phases across temperature changes on one object:
+    blocks A@T1, B@T2, A@T2 / A@T1, B@T1, A@T2, B@T2 / A, B, C, A ..., removeCache mostly False, occasional clearCache(),
+    repeats of the first query of a block after the temperature changed."""
+    S = SYSTEMS[case['system']]
+    P = [p for p in S['prec'] if p is not None]
+    Q = []
+    T = float(rng.uniform(*S['T']))
+    x = _rand_x(rng, S)
+    lastT = T
+
+    def add(kind, ph, Tq, rc):
+        nonlocal lastT
+        q = {'k': kind, 'x': [list(x)], 'T': [float(Tq)], 'batch': False, 'prec': ph, 'rc': rc, 'jump': abs(Tq - lastT),
+             'xf': str(rng.choice(['arr', 'arr', 'list'])), 'Tf': str(rng.choice(['float', 'arr', 'npfloat']))}
+        lastT = float(Tq)
+        Q.append(q)
+        return len(Q) - 1
+    for b in range(int(rng.integers(4, 7))):
+        kind = 'df' if rng.random() < 0.75 else 'curv'
+        order = [P[i] for i in rng.permutation(len(P))]
+        A, B = order[0], order[1]
+        T1 = T
+        T2 = T1
+        for _ in range(20):
+            T2, j = _move_T(rng, S, T1)
+            if j >= 5.0:
+                break
+        rc = bool(rng.random() < 0.2)
+        pat = int(rng.integers(0, 4 if len(P) > 2 else 3))
+        if pat == 0:
+            seq = [(A, T1), (B, T2), (A, T2)]
+        elif pat == 1:
+            seq = [(A, T1), (B, T1), (A, T2), (B, T2)]
+        elif pat == 2:
+            seq = [(A, T1), (B, T2), (A, T2), (B, T1), (A, T1)]
+        else:
+            C = order[2]
+            seq = [(A, T1), (B, T2), (C, T2), (A, T2), (C, T1), (B, T1)]
+        i0 = None
+        for ph, Tq in seq:
+            if Q and rng.random() < 0.08:
+                Q.append({'k': 'clear'})
+            i = add(kind, ph, Tq, rc)
+            i0 = i if i0 is None else i0
+        if rng.random() < 0.6:
+            q = dict(Q[i0])
+            q['repeat_of'] = i0
+            q['jump'] = abs(q['T'][0] - lastT)
+            lastT = q['T'][0]
+            Q.append(q)
+        T = lastT
+        if rng.random() < 0.5:
+            x = _move_x(rng, S, x)
     return Q
 
 
@@ -643,6 +737,10 @@ def run_history(case, R):
     sysn = case['system']
     for qi, q in enumerate(Q):
         k = q['k']
+        if k == 'clear':
+            W.clearCache()
+            R.observe('clear_ops')
+            continue
         tc = tol_class(q, case)
         tol = TOL_A if tc == 'a' else TOL_B
         n = npoints(q)
@@ -1278,8 +1376,168 @@ def run_tinyargs(case, R):
     R.set_nontrivial(nok >= 20)
 
 
+# ================================================================================================
+# part 2b: SinglePhaseModel under a temperature field, profiles with runs of bit-identical nodes
+
+class _FieldStub:
+    """Deterministic backend D(x, T) that logs every call."""
+    def __init__(self, ne):
+        self.ne = ne
+        self.log = []
+
+    def clearCache(self):
+        pass
+
+    @staticmethod
+    def value(x, T, ne):
+        x = np.atleast_1d(np.asarray(x, dtype=np.float64))
+        d = 1e-10 * math.exp(-15000.0 / float(T))
+        if ne == 1:
+            return d * (1.0 + 2.0 * float(x[0]))
+        return np.array([[d * (1.0 + 2.0 * x[0]), 0.10 * d * (1.0 + x[1])],
+                         [0.05 * d * (1.0 + x[0]), 0.6 * d * (1.0 + 3.0 * x[1])]])
+
+    def getInterdiffusivity(self, x, T, removeCache=True, phase=None):
+        self.log.append((np.array(x, dtype=np.float64).copy(), float(T)))
+        return self.value(x, T, self.ne)
+
+
+def run_tfield(case, R):
+    """Every node has its own temperature (field along z, drifting in time); step / bounded / constant profiles give runs of
+    bit-identical compositions.  Cache off: every node must reach the backend with its own (x, T).  Cache on: a value may only
+    be reused for nodes within 10^-s.  Fluxes and the stability time step are compared with a per-node reference."""
+    from vlib import core
+    from kawin.diffusion import SinglePhaseModel
+    from kawin.diffusion.DiffusionParameters import CompositionProfile, TemperatureParameters
+    from kawin.solver.Solver import SolverType
+    rng = core.case_rng(case['seed'], PROPERTY, case['idx'])
+    ne = int(rng.integers(1, 3))
+    els = ['NI', 'CR', 'AL'][:ne + 1]
+    N = int(rng.integers(10, 25))
+    zl = 1e-3
+    prof = CompositionProfile()
+    ptype = str(rng.choice(['step', 'bounded', 'constant_single']))
+    z0 = float(rng.uniform(-0.4, 0.4) * zl)
+    for e in els[1:]:
+        a, b = [float(v) for v in rng.uniform(0.05, 0.3, size=2)]
+        if ptype == 'step':
+            prof.addStepCompositionStep(e, a, b, z0 if rng.random() < 0.7 else float(rng.uniform(-0.4, 0.4) * zl))
+        elif ptype == 'bounded':
+            prof.addStepCompositionStep(e, a, a, 0.0)
+            prof.addBoundedCompositionStep(e, b, z0 - 0.3 * zl, z0 + 0.2 * zl)
+        else:
+            prof.addStepCompositionStep(e, a, a, 0.0)
+            prof.addSingleCompositionStep(e, b, z0)
+    T0 = float(rng.uniform(900, 1300))
+    grad = float(rng.choice([-1, 1]) * rng.uniform(2e4, 1.5e5))     # K/m: 40..300 K across the mesh
+    rate = float(rng.choice([0.0, rng.uniform(-1e-3, 1e-3)]))        # K/s
+
+    def field(z, t):
+        return T0 + grad * np.asarray(z) + rate * t
+    stub = _FieldStub(ne)
+    if rng.random() < 0.5:
+        m = SinglePhaseModel([-zl, zl], N, els, ['FCC_A1'], thermodynamics=stub, compositionProfile=prof,
+                             temperatureParameters=TemperatureParameters(field), record=False)
+    else:
+        m = SinglePhaseModel([-zl, zl], N, els, ['FCC_A1'], thermodynamics=stub, compositionProfile=prof, record=False)
+        m.setTemperatureFunction(field)
+    st = {'on': True, 's': 4, 'hits': 0, 'off': 0, 'runs': 0}
+    ht = m.hashTable
+    stored = []
+    real_get, real_add = ht.retrieveFromHashTable, ht.addToHashTable
+
+    def spy_add(x, T, value):
+        stored.append((np.array(x, dtype=np.float64).copy(), float(T), value))
+        return real_add(x, T, value)
+
+    def spy_get(x, T):
+        v = real_get(x, T)
+        if not st['on']:
+            R.check('cache_off', v is None, {'path': 'SinglePhaseModel', 'switch': 'useCache(False)', 'workload': 'temperature_field'},
+                    x=np.array(x), T=T, digits=st['s'])
+        if v is not None:
+            st['hits'] += 1
+        return v
+    ht.addToHashTable = spy_add
+    ht.retrieveFromHashTable = spy_get
+    m.setup()
+
+    def evaluate(tnow):
+        m.t = tnow
+        x = m.x.copy()
+        Tn = field(m.z, tnow)
+        runs = int(np.sum(np.all(x[:, 1:] == x[:, :-1], axis=0)))
+        st['runs'] += runs
+        n0 = len(stub.log)
+        fluxes, dt = m.getFluxes()
+        calls = stub.log[n0:]
+        mech = {'path': 'SinglePhaseModel', 'workload': 'temperature_field', 'switch': 'on' if st['on'] else 'useCache(False)',
+                'profile': ptype}
+        if not st['on']:
+            own = len(calls) == N and all(np.array_equal(c[0], x[:, i]) and c[1] == float(Tn[i]) for i, c in enumerate(calls))
+            R.check('backend_calls', own, dict(mech, via='getFluxes'), backend_calls=len(calls), nodes=N, identical_neighbours=runs,
+                    called_T=[c[1] for c in calls], node_T=Tn)
+        else:
+            R.check('backend_calls', len(calls) <= N, dict(mech, via='getFluxes'), backend_calls=len(calls), nodes=N)
+        # admissible diffusivities per node: its own value, or a stored value whose arguments agree within 10^-s
+        adm = []
+        for i in range(N):
+            a = [_FieldStub.value(x[:, i], Tn[i], ne)]
+            if st['on']:
+                for (xs, Ts, v) in stored:
+                    if _close(x[:, i], Tn[i], xs, Ts, st['s'])[0]:
+                        a.append(v)
+            adm.append(a)
+        worst = 0.0
+        scale = max(float(np.max(np.abs(fluxes))), 1e-300)
+        for j in range(1, N):
+            dx = (x[:, j] - x[:, j - 1]) / m.dz
+            best = float('inf')
+            for da in adm[j - 1]:
+                for db in adm[j]:
+                    dm = (np.asarray(db) + np.asarray(da)) / 2
+                    f = -dm * dx[0] if ne == 1 else -np.matmul(dm, dx)
+                    best = min(best, float(np.max(np.abs(np.atleast_1d(f) - fluxes[:, j]))))
+            worst = max(worst, best / scale)
+        R.worst('tfield_flux_vs_per_node_reference', worst)
+        R.check('cache_sound', worst <= 1e-9, dict(mech, via='flux_reference'), rel=worst, digits=st['s'], identical_neighbours=runs)
+        if all(len(a) == 1 for a in adm):
+            dmid = [(np.asarray(adm[j][0]) + np.asarray(adm[j - 1][0])) / 2 for j in range(1, N)]
+            dt_ref = m.constraints.vonNeumannThreshold * m.dz ** 2 / max(float(np.max(np.abs(d))) for d in dmid)
+            r = abs(dt - dt_ref) / dt_ref
+            R.worst('tfield_dt_vs_per_node_reference', r)
+            R.check('cache_sound', r <= 1e-9, dict(mech, via='dt_reference'), dt=dt, dt_ref=dt_ref, identical_neighbours=runs)
+        return dt
+    tnow = 0.0
+    for step in range(int(rng.integers(6, 12))):
+        r = rng.random()
+        if step == 0 or r < 0.35:
+            st['on'] = bool(rng.random() < 0.5) if step else False
+            m.useCache(st['on'])
+            st['off'] += 0 if st['on'] else 1
+        elif r < 0.5:
+            st['s'] = int(rng.integers(2, 9))
+            m.setHashSensitivity(st['s'])
+        elif r < 0.6:
+            m.clearCache()
+            del stored[:]
+        dt = evaluate(tnow)
+        if rng.random() < 0.3:
+            it = SolverType.EXPLICITEULER if rng.random() < 0.5 else SolverType.RK4
+            m.solve(float(dt) * float(rng.uniform(1.2, 2.5)), solverType=it)
+            tnow = float(m.t)
+        elif rate != 0.0 and rng.random() < 0.5:
+            tnow += float(rng.uniform(10, 1000))
+    R.observe('cache_hits', st['hits'])
+    R.info.update({'nodes': N, 'elements': ne, 'profile': ptype, 'identical_neighbour_pairs': st['runs'], 'off_phases': st['off'],
+                   'gradient_K_per_m': grad, 'rate_K_per_s': rate})
+    R.set_nontrivial(st['runs'] >= 1 and st['off'] >= 1)
+
+
 def run_case(case, R):
     kind = case['kind']
+    if kind == 'tfield':
+        return run_tfield(case, R)
     if kind == 'tinyargs':
         return run_tinyargs(case, R)
     if kind == 'history':
